@@ -110,7 +110,6 @@ class _IteratorState:
 
 class _RunnerIterator(iter_utils.MultiplexIterator[_ValueT]):
   """An iterator that returns the last value."""
-  data_sources: Sequence[Iterable[_ValueT]]
   agg_state: _AggState
 
   def __init__(
@@ -154,6 +153,10 @@ class _RunnerIterator(iter_utils.MultiplexIterator[_ValueT]):
   @property
   def name(self) -> str:
     return self._runner.name
+
+  @property
+  def data_sources(self) -> Sequence[Iterable[_ValueT]]:
+    return self._data_sources
 
   @property
   def has_agg(self) -> bool:
@@ -546,7 +549,14 @@ class _ChainedRunnerIterator(Iterable[_ValueT]):
     if isinstance(state, _IteratorState):
       assert len(self._iterators) == 1, f'{len(self._iterators)=}'
       state = {it.name: state for it in self._iterators}
-    iterators = [it.from_state(state[it.name]) for it in self._iterators]
+    # Restoring an iterator also restores the upstream iterator it consumes, so
+    # the chain is rebuilt from its tail: the upstream of a restored iterator
+    # is its own (restored) data source, not a separately restored copy.
+    last = self._iterators[-1]
+    iterators = [last.from_state(state[last.name])]
+    for _ in self._iterators[:-1]:
+      (upstream,) = iterators[0].data_sources
+      iterators.insert(0, upstream)
     return _ChainedRunnerIterator(
         iterators,
         with_result=self._with_result,
